@@ -344,6 +344,13 @@ feature_entries("C02", "dec-diff", "KF-C02", DEC, ["ptr2\\+", "array1-ptr-shaped
                 "marshalerP-by-value", "nilable-marshalerV", "omitempty-marshaler", "ptr-to-marshaler", "string-opt-nonscalar", "string-opt-float-or-string", "name-collisions", "tags-zoo",
                 "unmarshaler-types", "ptr-to-container", "iface-nonempty", "recmap", "array0-or-1-plain", "array0-omitempty"])
 D = "dec-diff"
+known("KF-C02-IH1", "C02", D, None, r"iface-holding:verdict", r"\*TextUnmarshaler:form\d",
+      'var i any = &T{} (T a TextUnmarshaler); Unmarshal("true", &i) = nil (encoding/json: cannot unmarshal bool)', "internal/decoder/interface.go decodeTextUnmarshaler: a non-string value is handed to UnmarshalText as its raw text",
+      "other verdict differences for an interface{} that holds a pointer to a TextUnmarshaler", "rare shape (an interface pre-loaded with a pointer); left as a finding")
+known("KF-C02-IH2", "C02", D, None, r"iface-holding:value", r"(\*\*int|\*any):form\d",
+      'var i any = &p (p *int or an interface{} variable); Unmarshal("null", &i) / Unmarshal(`{"A":7}`, &i): go-json replaces the content of i (nil / a new map), encoding/json keeps the pointer and stores through it',
+      "internal/decoder/interface.go Decode/DecodeStream: only one pointer level of a pre-loaded interface{} is followed, and a pointer to an interface is not followed at all",
+      "other value differences for an interface{} pre-loaded with a pointer to a pointer or to an interface", "rare shape; left as a finding")
 known("KF-C02-06", "C02", D, None, r"field-selection:case-insensitive-match", r"(core|feature:.*)",
       '{"C":-1} does not reach the field tagged `json:"c,omitempty"` of an embedded struct; {"B":1} into EmbDeep is not reported as a type error (encoding/json matches case-insensitively)', "internal/decoder/struct.go: case-insensitive lookup is missing for fields promoted from embedded structs (see C15)",
       "any disagreement that disappears when keys are spelled exactly like their fields", "see C15")
